@@ -72,7 +72,9 @@ struct Instance {
     uint64_t inflight_max = 0;
     bool blocked_in_drain = false;
     bool setup_failed = false; std::string last_failed_op;
+    bool is_dec = false; J decj, decout = J::obj();   // W4: a decoder instance among encoder instances
 };
+void dec_instance_run(const J &inst, J &out);   // dec.cc
 
 static void hist(Instance &I, size_t idx, const std::string &op, long ret, uint64_t d0, const J &extra = J()) {
     J e = J::arr(); e.push((uint64_t)idx); e.push(op); e.push((long long)ret); e.push(d0); e.push(sim_decision()); e.push(sim_alloc_counter());
@@ -285,7 +287,7 @@ static J frame_json(const obu::FrameHdr &h) {
     int gm_any = 0; for (int r = 1; r <= 7; r++) gm_any |= h.gm_type[r]; f.set("gm_any", gm_any);
     f.set("superres", h.use_superres); f.set("denom", h.superres_denom); f.set("w", h.frame_w); f.set("h", h.frame_h); f.set("uw", h.upscaled_w);
     f.set("ref_select", h.reference_select); f.set("skip_mode", h.skip_mode_present); f.set("txsel", h.tx_mode_select); f.set("reduced_tx", h.reduced_tx_set);
-    f.set("fg", h.fg.apply); f.set("dq", h.delta_q_present); f.set("seg", h.seg_enabled); f.set("prim_ref", h.primary_ref); f.set("intra", h.intra);
+    f.set("fg", h.fg.apply); f.set("fg_update", h.fg.update); f.set("fg_seed", h.fg.seed); f.set("dq", h.delta_q_present); f.set("seg", h.seg_enabled); f.set("prim_ref", h.primary_ref); f.set("intra", h.intra);
     f.set("dqydc", h.dq_y_dc); f.set("lossless", h.coded_lossless);
     return f;
 }
@@ -321,7 +323,7 @@ static void instance_oracles(Instance &I, J &out) {
     for (auto *r : rs) { uint64_t hsh = fnv1a(fnv_init(), r->data.data(), r->data.size()); rh = fnv1a(rh, &hsh, 8); rh = fnv1a(rh, &r->pts, 8); }
     out.set("recons", rj); out.set("recon_hash", hex64(rh));
     if (I.stream_hdr_bytes.size()) out.set("stream_header_hash", hex64(fnv1a(fnv_init(), I.stream_hdr_bytes.data(), I.stream_hdr_bytes.size())));
-    if (!orc.geti("parse", 1) || pk.empty()) return;
+    if (pk.empty() || (!orc.geti("parse", 1) && !orc.geti("decode", 1) && !orc.geti("tool_usage", 0))) return;   // the parse also feeds the decode-based oracles (key packets, frame list)
 
     // ---- independent parse (C02, C18, C19, C20) ----
     int slot_owner[8]; for (int &x : slot_owner) x = -1; std::vector<char> nonref_reported(pk.size(), 0);
@@ -439,7 +441,7 @@ static void instance_oracles(Instance &I, J &out) {
             if (ok) { if (ap.size() != pics.size()) oracle_fail("refdec_disagree", "libaom and dav1d output different picture counts"); else for (size_t k = 0; k < ap.size(); k++) if (ap[k].data != pics[k].data) { char b[96]; snprintf(b, sizeof b, "picture %zu differs between dav1d and libaom", k); oracle_fail("refdec_disagree", b); break; } } }
     }
     // C26: reported SSE vs submitted picture and decoded picture (8-bit)
-    if (dec_ok && orc.geti("sse", 0) && bd == 8) {
+    if (dec_ok && orc.geti("sse", 0) && bd == 8 && I.cfg->stat_report) {   // the statement is about runs with statistics reporting enabled
         for (size_t k = 0; k < pics.size() && k < pic_packet.size(); k++) {
             const Packet &p = *pk[pic_packet[k]]; int idx = (int)(p.priv ? p.priv - 0x100000 : p.pts); // submitted index: pts==index in these cases
             idx = (int)p.pts; if (idx < 0 || idx >= I.content.n) continue;
@@ -475,10 +477,11 @@ static void instance_oracles(Instance &I, J &out) {
 }
 
 static void setup_instance(Instance &I, const J &src) {
+    if (src.gets("kind", "enc") == "dec") { I.is_dec = true; I.decj = src; return; }
     I.cfgj = src["cfg"]; I.program = src["program"]; I.prefill = src.gets("cfg_prefill", "zero"); I.prefill_seed = (uint64_t)src.geti("cfg_prefill_seed", 1);
     content_from_json(src["content"], I.content);
 }
-static void *instance_thread(void *a) { Instance *I = (Instance *)a; if (I->program.a.size() && I->program.a[0].gets("op", "") == "yield") {} run_program(*I); return nullptr; }
+static void *instance_thread(void *a) { Instance *I = (Instance *)a; if (I->is_dec) dec_instance_run(I->decj, I->decout); else run_program(*I); return nullptr; }
 
 void run_enc_world() {
     SimConfig sc; sim_config_from_case(g_case, sc);
@@ -487,7 +490,7 @@ void run_enc_world() {
     if (g_case.has("instances")) { int k = 0; for (auto &ij : g_case["instances"].a) { inst.emplace_back(new Instance()); inst.back()->id = k++; setup_instance(*inst.back(), ij); } }
     else { inst.emplace_back(new Instance()); setup_instance(*inst[0], g_case); }
     sim_start(&sc, world_fatal);
-    if (inst.size() == 1) run_program(*inst[0]);
+    if (inst.size() == 1 && !inst[0]->is_dec) run_program(*inst[0]);
     else {
         std::vector<pthread_t> th(inst.size());
         for (size_t i = 0; i < inst.size(); i++) pthread_create(&th[i], nullptr, instance_thread, inst[i].get());
@@ -510,6 +513,7 @@ void run_enc_world() {
     g_result.set("last_failed_site", hex64(sim_last_failed_site()));
     J ij = J::arr();
     for (auto &I : inst) {
+        if (I->is_dec) { ij.push(I->decout); continue; }
         J o = J::obj(); o.set("history", I->history); o.set("sessions", I->ledger_sessions); o.set("sent", I->sent); o.set("eos_packet", I->eos_packet);
         if (I->cfg && g_case["oracles"].geti("dump_cfg", 0)) o.set("cfg_effective", cfg_dump(*I->cfg));
         instance_oracles(*I, o); ij.push(o);
